@@ -18,7 +18,7 @@ CHECKS = {
             "DESIGN.md section 4 C17"),
     "C18": ("loopmc+segmc", "model_checking",
             "protocol half: exhaustive enumeration of greetings x truncations x all segmentations on both connection flavours against a reference greeting grammar; client half: all splits of greeting and password verdict, every verdict (OK, 6 ACK codes, close at every offset, garbage, read error) explored on the real Client::connect* under the controlled scheduler",
-            "Greetings `OK MPD `+version over 7 byte classes up to length 3/4, wrong prefixes and overlong versions, truncated at every position, under all compositions (<=13/16 bytes) or <=2 cuts: success iff valid, version verbatim, InvalidMessage for malformed, UnexpectedEof for proper prefixes. Client: first line is `password <pw>` (tokenized; ten edge passwords: empty, blank-edged, tab, non-ASCII spaces, quote, backslash, CR), no idle before the verdict was read, IncorrectPassword on any ACK with nothing further written, protocol error on close/garbage/read error inside the handshake, ordinary legal session afterwards.",
+            "Greetings `OK MPD `+version over 7 byte classes up to length 3/5, wrong prefixes and overlong versions, truncated at every position, under all compositions (<=13/16 bytes) or <=2 cuts: success iff valid, version verbatim, InvalidMessage for malformed, UnexpectedEof for proper prefixes. Client: first line is `password <pw>` (tokenized; ten edge passwords: empty, blank-edged, tab, non-ASCII spaces, quote, backslash, CR), no idle before the verdict was read, IncorrectPassword on any ACK with nothing further written, protocol error on close/garbage/read error inside the handshake, ordinary legal session afterwards.",
             "Trusted: mpdref::wire::ref_greeting, mpdref::server's password model; the greeting is never delivered in the same read as later bytes.",
             "DESIGN.md section 4 C18"),
     "C14": ("enum", "model_checking",
@@ -103,7 +103,7 @@ CHECKS = {
             "DESIGN.md sections 3.1, 4 C08"),
     "C06": ("enum", "model_checking",
             "bounded-exhaustive enumeration of argument strings over a class alphabet, decoded by a port of MPD's tokenizer",
-            "Every argument string over 12 class representatives up to length 5 (quick) / 7 (thorough), all pairs (len<=2/3) and triples (len<=1), through every string Argument impl (&str, String, Cow borrowed and owned, &String, &&str), Connection::send, AsyncConnection::send / send_list and CommandList rendering over whole-write and 1-5-byte-per-write transports, and every command name of length <=3/4 over 6 symbols that the builder accepts, is rendered by the real code and read back by the reference tokenizer; the space is enumerated completely within the bound.",
+            "Every argument string over 12 class representatives up to length 5 (quick) / 8 (thorough), all pairs (len<=2/3) and triples (len<=1), through every string Argument impl (&str, String, Cow borrowed and owned, &String, &&str), Connection::send, AsyncConnection::send / send_list and CommandList rendering over whole-write and 1-5-byte-per-write transports, and every command name of length <=3/4 over 6 symbols that the builder accepts, is rendered by the real code and read back by the reference tokenizer; the space is enumerated completely within the bound.",
             "Trusted: mpdref::tokenizer as a faithful port of MPD's Tokenizer.cxx/command_process (self-tested on documented examples); the class alphabet has one representative per byte class either side distinguishes.",
             "DESIGN.md section 4 C06"),
 }
